@@ -25,6 +25,8 @@ MECH = {
     'cancel_ready': 'canceller-completes-uncommitted-job', 'cancel_creating': 'canceller-completes-uncommitted-job',
     'cancel_running': 'canceller-completes-uncommitted-job',
     'schedule_loop': 'scheduler-runs-uncommitted-job', 'jpim_create': 'scheduler-runs-uncommitted-job', 'jpim_schedule': 'scheduler-runs-uncommitted-job',
+    # a worker only reports the start of a job the scheduler posted to it (the driver's own CALL schedule_job may have failed afterwards)
+    'job_started': 'scheduler-runs-uncommitted-job',
     'unschedule': 'parent-completion-updates-uncommitted-child', 'deactivate_instance': 'parent-completion-updates-uncommitted-child',
 }
 
